@@ -486,16 +486,16 @@ def run(ctx):
     tier = ctx.tier
     # named deviations: each must violate exactly its invariant on the model (non-vacuity + design-level explanation)
     for part, dev, inv in DEVIATIONS:
-        res = ctx.tlc("ModelGeom", cfg="ModelGeom.%s.%s.deviation.cfg" % (part, dev), workers=16, expect_violation=True, timeout=600)
+        res = ctx.tlc("ModelGeom", cfg="ModelGeom.%s.%s.deviation.cfg" % (part, dev), workers=1, expect_violation=True, timeout=600)
         if res.violated != inv:
             raise MachineryError("deviation %s did not violate %s on the model (violated=%r)" % (dev, inv, res.violated))
         ctx.observations.setdefault("deviation_counterexamples", {})[dev] = inv
         tlc.cleanup(res)
-    res = ctx.tlc("ModelGeom", cfg="ModelGeom.C07.%s.cfg" % tier, workers=16, timeout=1500)
+    res = ctx.tlc("ModelGeom", cfg="ModelGeom.C07.%s.cfg" % tier, workers=4, timeout=1500)
     ctx.model_must_hold(res, "ModelGeom.C07")
     lin = [c for c in res.cases if c.get("kind") == "lin"]
     tlc.cleanup(res)
-    res = ctx.tlc("ModelGeom", cfg="ModelGeom.TP.%s.cfg" % tier, workers=16, timeout=1500)
+    res = ctx.tlc("ModelGeom", cfg="ModelGeom.TP.%s.cfg" % tier, workers=4, timeout=1500)
     ctx.model_must_hold(res, "ModelGeom.TP")
     conv = [c for c in res.cases if c.get("kind") in ("conv1", "conv2")]
     tlc.cleanup(res)
